@@ -181,11 +181,16 @@ Definition snapshot_locs (st : store) : list (term * term) :=
 Fixpoint somes {A} (l : list (option A)) : list A :=
   match l with [] => [] | Some a :: r => a :: somes r | None :: r => somes r end.
 
-(* restore --snapshot-regex <full name>: only the listed snapshots with that name are loaded *)
-Definition restore (fc : facts) (m : mode) (st : store) (target : term) : res (list (term * parts)) :=
-  let cands := filter (fun nt => term_eqb (fst nt) target) (snapshot_locs st) in
+(* restore --snapshot-regex <full name>: only the listed snapshots with that name are loaded.
+   The listing is taken first; the store the downloads see may differ from it (objects changed or removed
+   by somebody else after the listing) *)
+Definition restore_listed (fc : facts) (m : mode) (listing : list (term * term)) (st : store) (target : term) : res (list (term * parts)) :=
+  let cands := filter (fun nt => term_eqb (fst nt) target) listing in
   bind (mapM (fun nt => load_one fc m st (fst nt) (snd nt)) cands) (fun bodies =>
   bind (mapM (restore_body fc m st) (somes bodies)) (fun outs => Ok (concat outs))).
+
+Definition restore (fc : facts) (m : mode) (st : store) (target : term) : res (list (term * parts)) :=
+  restore_listed fc m (snapshot_locs st) st target.
 
 (* what a snapshot NAME denotes, independently of any store: the files and parts recorded in the
    unique contents that hash to it *)
